@@ -319,6 +319,21 @@ def _skeleton_checks():
         raise TranslateError("handle_import changed")
 
 
+def _reserved_field_names() -> List[str]:
+    fn = find_func(load("parser.py"), "add_fields", "Parser")
+    hits = [n for n in ast.walk(fn) if isinstance(n, ast.Assign) and _u(n.targets[0]) == "reserved_field_names"]
+    if len(hits) != 1 or not isinstance(hits[0].value, ast.Tuple) or \
+            not all(isinstance(e, ast.Constant) and isinstance(e.value, str) for e in hits[0].value.elts):
+        raise TranslateError("add_fields: reserved_field_names is not one tuple of string literals")
+    tests = [n for n in ast.walk(fn) if isinstance(n, ast.If) and _u(n.test) == "fname in reserved_field_names"]
+    if len(tests) != 1 or _single_raise(tests[0].body, "add_fields") != RTMA:
+        raise TranslateError("add_fields: the reserved field name test changed")
+    loop = [n for n in ast.walk(fn) if isinstance(n, ast.For) and _u(n.iter) == "fields.items()"]
+    if len(loop) != 1 or loop[0].body[0] is not tests[0]:
+        raise TranslateError("add_fields: the reserved field name test is not the first check of every field")
+    return [e.value for e in hits[0].value.elts]
+
+
 def _strlist(name: str, xs: List[str]) -> str:
     return f"Definition {name} : list string := [" + "; ".join(coq_string(x) for x in xs) + "]."
 
@@ -355,6 +370,8 @@ def render() -> str:
         out.append(_strlist("ns_" + h, _namespaces(find_func(tree, h, "Parser"))))
     out.append(_strlist("ns_handle_host_id", h_ns))
     out.append(_strlist("ns_handle_module_id", m_ns))
+    out.append("(* add_fields: field names refused for every struct and message definition *)")
+    out.append(_strlist("reserved_field_names", _reserved_field_names()))
     out.append("(* order in which parse_text walks the sections of one file *)")
     out.append(_strlist("section_order", order))
     return "\n".join(out) + "\n"
